@@ -380,7 +380,7 @@ theorem default_plane_identity (ph : R → K) (o : R) (hph : ph o = 1) (f : Fld 
     simp only [Fld.sem, hf, hq1, Bool.false_eq_true, if_false, if_true, hqv, mul_one]
   | true =>
     obtain ⟨h0, h1⟩ := hsz hf
-    have hm := C06.mul_scalar_scalar f (scalarPhasor ph (.scalar (1 : K)) (.scalar o) true) (by rw [hf, hq1]; rfl)
+    have hm := Fld.mul_scalar_scalar f (scalarPhasor ph (.scalar (1 : K)) (.scalar o) true) (by rw [hf, hq1]; rfl)
     have hoff : f.o0 = (scalarPhasor ph (.scalar (1 : K)) (.scalar o) true).o0 ∧ f.o1 = (scalarPhasor ph (.scalar (1 : K)) (.scalar o) true).o1 :=
       ⟨h0, h1⟩
     rw [if_pos hoff] at hm
